@@ -437,8 +437,28 @@ def check_restore_paths(ctx, rep):
             rep.check('C17.A', f"{ci.qualname}.{fn.name}::{norm_text(st)[:50]}", ok, where(ci.module, st), None,
                       f"{ci.name}.{fn.name} can return before `{norm_text(st)[:60]}`: on that path the checkpointed value is ignored and this part of the run state starts afresh, so "
                       f"the resumed run does not continue the interrupted one")
-    if n < 20:
-        rep.incomplete('C17.A', '*', '', f"only {n} restoring statements found")
+    # template methods: the base class restores (writes) its own part and hands the rest to a hook the subclasses implement (`self._load_state_dict(state)` /
+    # `self._state_dict()`): the hook is the ONLY way the subclass state gets in or out, so it is called on every path — a flag of the base class cannot know what the
+    # subclasses keep there (HMCOperator adapts through its adaptors whatever `_disable_adaptation` says)
+    h = 0
+    for ci in sorted(ctx.classes.classes.values(), key=lambda c: c.qualname):
+        if '.cli.' in ci.qualname:
+            continue
+        for tname, hook in (('load_state_dict', '_load_state_dict'), ('state_dict', '_state_dict')):
+            fn, hk = ci.methods.get(tname), ci.methods.get(hook)
+            if fn is None or hk is None or not any((dotted_name(d) or '').endswith('abstractmethod') for d in hk.decorator_list):
+                continue
+            cfg = CFG(fn)
+            calls = [nd for nd in cfg.stmt_nodes() if not isinstance(nd.stmt, (ast.If, ast.For, ast.While, ast.With, ast.Try, ast.FunctionDef))
+                     and any(isinstance(c, ast.Call) and self_attr(c.func) == hook for c in ast.walk(nd.stmt))]
+            h += 1
+            ok = bool(calls) and cfg.must_pass(cfg.entry, cfg.exit, calls)
+            rep.check('C17.A', f"{ci.qualname}.{tname}::hook-{hook}-on-every-path", ok, where(ci.module, calls[0].stmt if calls else fn), {'hook_calls': len(calls)},
+                      f"{ci.name}.{tname} does not call self.{hook}(…) on every path: the state the subclasses keep behind that hook (tuning values, integrator step size, mass "
+                      f"matrix, adaptor state) is then left out of the checkpoint / left at its fresh value on restart")
+    rep.analysed['template_hooks'] = h
+    if n < 20 or h < 2:
+        rep.incomplete('C17.A', '*', '', f"only {n} restoring statements / {h} template hooks found")
 
 
 def check_restore_ownership(ctx, rep):
@@ -498,6 +518,55 @@ def check_encoder_writes_tensor_as_is(ctx, rep):
                                   f"checkpointed one (state of the optimiser / operators no longer matches it)")
     if n < 2:
         rep.incomplete('C17.E', 'encoders::tensor-written-as-is', '', f"only {n} tensor entries found in the encoders")
+    # … and the decoder rebuilds it with the precision that was written: where the record carries a 'dtype', the dtype handed to torch.tensor derives from that entry, not
+    # from the session default or a fixed precision (optimisers cast their own state on load; adaptor and operator state is used as it comes out of the decoder)
+    from sa.util import backward_slice, local_assignments
+    m = ctx.prog.module('torchtree.core.utils')
+    dec = m.classes.get('TensorDecoder')
+    hook = next((b for b in dec.body if isinstance(b, ast.FunctionDef) and b.name == 'object_hook'), None) if dec is not None else None
+    if hook is None:
+        raise AnalysisError('TensorDecoder.object_hook not found')
+    params = {a.arg for a in hook.args.args}
+    defs = {k: v for k, v in local_assignments(hook).items() if k not in params}
+
+    def recorded(st):
+        """the statement runs only when the record has a 'dtype' (True), only when it has none (False), or either way (None)"""
+        p, child = getattr(st, '_parent', None), st
+        while p is not None and p is not hook:
+            if isinstance(p, ast.If):
+                t = p.test
+                if isinstance(t, ast.Compare) and len(t.ops) == 1 and isinstance(t.left, ast.Constant) and t.left.value == 'dtype' and isinstance(t.ops[0], (ast.In, ast.NotIn)):
+                    inside = any(child is b for b in p.body)
+                    return inside == isinstance(t.ops[0], ast.In)
+            child, p = p, getattr(p, '_parent', None)
+        return None
+    sites = []
+    for st in ast.walk(hook):
+        if isinstance(st, ast.Assign) and any(isinstance(t, ast.Subscript) and isinstance(t.slice, ast.Constant) and t.slice.value == 'dtype' for t in st.targets):
+            sites.append((st, st.value))
+        if isinstance(st, ast.stmt):
+            for c in ast.walk(st):
+                if isinstance(c, ast.Call) and (dotted_name(c.func) or '') in ('torch.tensor', 'torch.as_tensor'):
+                    for k in c.keywords:
+                        if k.arg == 'dtype':
+                            sites.append((st, k.value))
+    sites = [(st, v) for st, v in {id(v): (st, v) for st, v in sites}.values()]
+    from_record = 0
+    for st, v in sites:
+        sl = backward_slice(v, defs)
+        reads = any(isinstance(x, ast.Subscript) and isinstance(x.slice, ast.Constant) and x.slice.value == 'dtype' and isinstance(x.ctx, ast.Load) for e in sl for x in ast.walk(e))
+        other = [x for e in sl for x in ast.walk(e) if (isinstance(x, ast.Call) and (dotted_name(x.func) or '').endswith('get_default_dtype'))
+                 or (isinstance(x, ast.Attribute) and isinstance(x.value, ast.Name) and x.value.id == 'torch' and x.attr in ('float16', 'float32', 'float64', 'float', 'double', 'half', 'bfloat16'))]
+        from_record += bool(reads)
+        if recorded(st) is False:
+            continue
+        rep.check('C17.E', f"TensorDecoder.object_hook::dtype-is-the-recorded-one::{norm_text(v)[:40]}", reads and not other, where(m, v),
+                  {'reads_the_record': reads, 'other_sources': [norm_text(x)[:40] for x in other]},
+                  f"TensorDecoder.object_hook builds the tensor with `{norm_text(other[0])[:40] if other else norm_text(v)[:40]}` where the record carries its own dtype: state that "
+                  f"no optimiser casts back (dual-averaging values, mass matrices, operator tuning tensors) comes back in another precision than it was saved in, and the resumed run "
+                  f"no longer continues the interrupted one")
+    if not from_record:
+        rep.undecided('C17.E', 'TensorDecoder.object_hook::dtype-is-the-recorded-one', where(m, hook), "no store of the record's dtype recognised in the decoder")
 
 
 def run(ctx, rep):
